@@ -39,6 +39,7 @@ func FBP(reftree *tree.Tree, boottrees <-chan tree.Trees, cpus int, sup *Support
 		}
 	}
 	var wg sync.WaitGroup
+	var errmux sync.Mutex // protects err, written by the workers
 	for cpu := 0; cpu < cpus; cpu++ {
 		wg.Add(1)
 		go func(cpu int) {
@@ -50,15 +51,21 @@ func FBP(reftree *tree.Tree, boottrees <-chan tree.Trees, cpus int, sup *Support
 					break
 				}
 				if treeV.Err != nil {
+					errmux.Lock()
 					err = treeV.Err
+					errmux.Unlock()
 					return
 				} else {
 					if inerr = treeV.Tree.ReinitIndexes(); inerr != nil {
+						errmux.Lock()
 						err = inerr
+						errmux.Unlock()
 						return
 					}
 					if inerr = reftree.CompareTipIndexes(treeV.Tree); inerr != nil {
+						errmux.Lock()
 						err = inerr
+						errmux.Unlock()
 						return
 					}
 					atomic.AddInt32(&ntrees, 1)
@@ -66,7 +73,9 @@ func FBP(reftree *tree.Tree, boottrees <-chan tree.Trees, cpus int, sup *Support
 					for i, e2 := range edges2 {
 						if !e2.Right().Tip() {
 							if inerr = edgeIndex.PutEdgeValue(e2, i, e2.Length()); inerr != nil {
+								errmux.Lock()
 								err = inerr
+								errmux.Unlock()
 								return
 							}
 						}
